@@ -136,6 +136,37 @@ Proof.
   - exact sopp_def.
 Qed.
 
+(** product with a series concentrated at order zero *)
+Lemma conv_const_l (c f : Ser) n :
+  (forall a, is_zero a = false -> c a == 0) ->
+  conv c f n == c (mzero (length n)) * f n.
+Proof.
+  intros Hc. unfold conv.
+  rewrite (@bigsum_single _ _ _ _ _ _ _ _ _ _ _
+             (fun p : mi * mi => c (fst p) * f (snd p)) (mzero (length n), n)).
+  - reflexivity.
+  - apply nodup_splits.
+  - apply splits_zero_l.
+  - intros (a, b) I Hne. cbn [fst snd]. destruct (is_zero a) eqn:Z.
+    + destruct (splits_zero_l_inv _ _ _ I Z). subst. now elim Hne.
+    + rewrite (Hc a Z). non_commutative_ring.
+Qed.
+
+Lemma conv_const_r (c f : Ser) n :
+  (forall a, is_zero a = false -> c a == 0) ->
+  conv f c n == f n * c (mzero (length n)).
+Proof.
+  intros Hc. unfold conv.
+  rewrite (@bigsum_single _ _ _ _ _ _ _ _ _ _ _
+             (fun p : mi * mi => f (fst p) * c (snd p)) (n, mzero (length n))).
+  - reflexivity.
+  - apply nodup_splits.
+  - apply splits_zero_r.
+  - intros (a, b) I Hne. cbn [fst snd]. destruct (is_zero b) eqn:Z.
+    + destruct (splits_zero_r_inv _ _ _ I Z). subst. now elim Hne.
+    + rewrite (Hc b Z). non_commutative_ring.
+Qed.
+
 (** the swapped Cauchy sum *)
 Lemma conv_swap f g n :
   conv f g n == bigsum (fun p => f (snd p) * g (fst p)) (splits n).
